@@ -217,3 +217,24 @@ def seed_rules(chk, repo, eff, clause, global_users, only=None):
                    ('documented unseeded model: ' if ok else 'undocumented use of global random state / nondeterminism: ')
                    + '; '.join(f'{r[1]} at {r[2]}' for r in g), f.loc())
 
+
+
+def mul_concat(chk, repo, clause):
+    """Field.__mul__ hands the product a NEW list holding both operands' tilts."""
+    S = nf.sym
+    from ..rules import alias_root
+    fm = repo.func('field.Field.__mul__')
+    _, paths, _ = analyse(repo, fm)
+    ok, det, n = True, '', 0
+    for p in returns(paths):
+        for e in p.events:
+            if e.kind == 'call' and e.data.get('new') == 'field.Field':
+                n += 1
+                t = e.bound.get('tilt')
+                r = alias_root(t) if t is not None else None
+                fresh = t is not None and r is None and isinstance(t, Poly) and \
+                    {nf.attr(S('self'), 'tilt').single_atom(), nf.attr(S('other'), 'tilt').single_atom()} <= t.atoms()
+                if not fresh:
+                    ok, det = False, f'product field gets tilt = {fmt(t)}'
+    chk.ob(clause, 'E-ownership', fm.key, 'product carries a new list with both operands\' tilts', ok and n > 0,
+           det or 'tilt = self.tilt + other.tilt (new list)', fm.loc())
